@@ -3,7 +3,9 @@ import json, jsonschema, sys, glob
 m=json.load(open('/verif/MANIFEST.json')); s=json.load(open('/root/.vp/MANIFEST.schema.json'))
 jsonschema.validate(m,s); print("manifest valid:", len(m['checks']), "checks")
 es=json.load(open('/root/.vp/EVIDENCE.schema.json'))
+claimed={c['property_id'] for c in m['checks']}
 for f in sorted(glob.glob('/verif/evidence/*.json')):
+    if f.split('/')[-1][:-5] not in claimed: continue
     try:
         jsonschema.validate(json.load(open(f)), es)
     except Exception as e:
